@@ -300,10 +300,8 @@ theorem pubE_zero (tbl tblF : Table) (ht : TableZero tbl tblF) :
     obtain ⟨f2, e2, z2⟩ := pubE_zero tbl tblF ht b sb h2
     refine ⟨fc ++ (f1 ++ f2), by rw [fullE, ec, e1, e2], fun hz => ?_⟩
     have hz' := size_append_zero hz
-    have ha : sizeCells sa = 0 := by
-      have := hz'.2; split at this <;> omega
-    have hb : sizeCells sb = 0 := by
-      have := hz'.2; split at this <;> omega
+    have ha : sizeCells sa = 0 := (size_append_zero hz'.2).1
+    have hb : sizeCells sb = 0 := (size_append_zero hz'.2).2
     rw [sizeCells_append, sizeCells_append, zc hz'.1, z1 ha, z2 hb]
   | .tup es, seg, h => by
     rw [pubE] at h
@@ -422,17 +420,11 @@ theorem pubE_ext (tbl tblF : Table) (ok : String → Bool) (hz : TableZero tbl t
     obtain ⟨sc, sa, sb, hc, h1, h2, rfl⟩ := pubE_ite_inv h
     rw [armsZE] at ha
     simp only [Bool.and_eq_true] at ha
-    obtain ⟨⟨⟨oc, oa⟩, ea⟩, eb⟩ := ha
-    have za := stateless_sizeL sa (stateless_of_isStateless ea h1)
-    have zb := stateless_sizeL sb (stateless_of_isStateless eb h2)
-    rw [za, zb]
-    simp only [Nat.lt_irrefl, if_false]
+    obtain ⟨⟨⟨⟨oc, oa⟩, ob⟩, _⟩, _⟩ := ha
     obtain ⟨fc, ec, xc⟩ := pubE_ext tbl tblF ok hz ht c sc oc hc
     obtain ⟨f1, e1, x1⟩ := pubE_ext tbl tblF ok hz ht a sa oa h1
-    obtain ⟨f2, e2, z2⟩ := pubE_zero tbl tblF hz b sb h2
-    refine ⟨fc ++ (f1 ++ f2), by rw [fullE, ec, e1, e2], extL_append _ _ _ _ xc ?_⟩
-    have := extL_append _ _ _ _ x1 (extL_nil_of_zero f2 (z2 zb))
-    simpa using this
+    obtain ⟨f2, e2, x2⟩ := pubE_ext tbl tblF ok hz ht b sb ob h2
+    exact ⟨fc ++ (f1 ++ f2), by rw [fullE, ec, e1, e2], extL_append _ _ _ _ xc (extL_append _ _ _ _ x1 x2)⟩
   | .tup es, seg, ha, h => by
     rw [pubE] at h; rw [armsZE] at ha
     obtain ⟨sF, e1, x1⟩ := pubL_ext tbl tblF ok hz ht es seg ha h
